@@ -3,6 +3,76 @@
 package keccak
 
 // Contracts checked by /verif (govc). Comments only; see /verif/DESIGN.md.
+// C04: every gadget is specified against the FIPS-202 transcription in /verif/spec/05_keccak.smt2
+// (generated from the standard's algorithms, not from this package's tables).
+// Lanes are slices of 64 bit-variables; keccak.lane(s, 0) is the 64-bit vector they denote (bit z = s[z]).
+
+//@ func (Xor5Round) DefineGadget
+//@   property C04 C12
+//@   returns Variable
+//@   let allb = isbool(g.A) && isbool(g.B) && isbool(g.C) && isbool(g.D) && isbool(g.E)
+//@   ensures api.ok == (ok0 && allb)
+//@   ensures allb ==> isbool(result) && (result == 1) == ((((g.A == 1) != (g.B == 1)) != (g.C == 1)) != ((g.D == 1) != (g.E == 1)))
+
+//@ func (Xor5) DefineGadget
+//@   property C04 C12
+//@   requires len(g.A) == 64 && len(g.B) == 64 && len(g.C) == 64 && len(g.D) == 64 && len(g.E) == 64
+//@   returns [64]Variable
+//@   let okin = keccak.lanebool(g.A, 0) && keccak.lanebool(g.B, 0) && keccak.lanebool(g.C, 0) && keccak.lanebool(g.D, 0) && keccak.lanebool(g.E, 0)
+//@   ensures api.ok == (ok0 && okin)
+//@   ensures okin ==> keccak.lanebool(result, 0) && keccak.lane(result, 0) ==
+//@              keccak.xor(keccak.xor(keccak.xor(keccak.xor(keccak.lane(g.A, 0), keccak.lane(g.B, 0)), keccak.lane(g.C, 0)), keccak.lane(g.D, 0)), keccak.lane(g.E, 0))
+//@   reveal keccak.lane keccak.lanebool
+
+//@ func (Xor) DefineGadget
+//@   property C04 C12
+//@   requires len(g.A) == 64 && len(g.B) == 64
+//@   returns [64]Variable
+//@   let okin = keccak.lanebool(g.A, 0) && keccak.lanebool(g.B, 0)
+//@   ensures api.ok == (ok0 && okin)
+//@   ensures okin ==> keccak.lanebool(result, 0) && keccak.lane(result, 0) == keccak.xor(keccak.lane(g.A, 0), keccak.lane(g.B, 0))
+//@   reveal keccak.lane keccak.lanebool
+
+//@ func (And) DefineGadget
+//@   property C04 C12
+//@   requires len(g.A) == 64 && len(g.B) == 64
+//@   returns [64]Variable
+//@   let okin = keccak.lanebool(g.A, 0) && keccak.lanebool(g.B, 0)
+//@   ensures api.ok == (ok0 && okin)
+//@   ensures okin ==> keccak.lanebool(result, 0) && keccak.lane(result, 0) == keccak.and(keccak.lane(g.A, 0), keccak.lane(g.B, 0))
+//@   reveal keccak.lane keccak.lanebool
+
+//@ func (Not) DefineGadget
+//@   property C04 C12
+//@   requires len(g.A) == 64
+//@   returns [64]Variable
+//@   ensures api.ok == ok0
+//@   ensures keccak.lanebool(g.A, 0) ==> keccak.lanebool(result, 0) && keccak.lane(result, 0) == keccak.not(keccak.lane(g.A, 0))
+//@   reveal keccak.lane keccak.lanebool
+//@   lemmas sub1_bool
+
+//@ func (Rot) DefineGadget
+//@   property C04 C12
+//@   requires len(g.A) == 64 && 0 <= g.R && g.R < 64
+//@   cases g.R == 0 | g.R == 1 | g.R == 2 | g.R == 3 | g.R == 4 | g.R == 5 | g.R == 6 | g.R == 7 | g.R == 8 | g.R == 9 | g.R == 10 | g.R == 11 | g.R == 12 | g.R == 13 | g.R == 14 | g.R == 15 | g.R == 16 | g.R == 17 | g.R == 18 | g.R == 19 | g.R == 20 | g.R == 21 | g.R == 22 | g.R == 23 | g.R == 24 | g.R == 25 | g.R == 26 | g.R == 27 | g.R == 28 | g.R == 29 | g.R == 30 | g.R == 31 | g.R == 32 | g.R == 33 | g.R == 34 | g.R == 35 | g.R == 36 | g.R == 37 | g.R == 38 | g.R == 39 | g.R == 40 | g.R == 41 | g.R == 42 | g.R == 43 | g.R == 44 | g.R == 45 | g.R == 46 | g.R == 47 | g.R == 48 | g.R == 49 | g.R == 50 | g.R == 51 | g.R == 52 | g.R == 53 | g.R == 54 | g.R == 55 | g.R == 56 | g.R == 57 | g.R == 58 | g.R == 59 | g.R == 60 | g.R == 61 | g.R == 62 | g.R == 63
+//@   returns [64]Variable
+//@   ensures api.ok == ok0
+//@   ensures keccak.lane(result, 0) == keccak.rotl(keccak.lane(g.A, 0), g.R)
+//@   ensures keccak.lanebool(g.A, 0) ==> keccak.lanebool(result, 0)
+//@   reveal keccak.lane keccak.lanebool keccak.rotl
+
+//@ func (KeccakRound) DefineGadget
+//@   property C04 C12
+//@   shape g.A [5][5][64]
+//@   requires g.RotationOffsets == R
+//@   modifies g.A
+//@   returns [5][5][64]Variable
+//@   let st0 = keccak.st25(keccak.lane(old(g.A)[0][0], 0), keccak.lane(old(g.A)[1][0], 0), keccak.lane(old(g.A)[2][0], 0), keccak.lane(old(g.A)[3][0], 0), keccak.lane(old(g.A)[4][0], 0), keccak.lane(old(g.A)[0][1], 0), keccak.lane(old(g.A)[1][1], 0), keccak.lane(old(g.A)[2][1], 0), keccak.lane(old(g.A)[3][1], 0), keccak.lane(old(g.A)[4][1], 0), keccak.lane(old(g.A)[0][2], 0), keccak.lane(old(g.A)[1][2], 0), keccak.lane(old(g.A)[2][2], 0), keccak.lane(old(g.A)[3][2], 0), keccak.lane(old(g.A)[4][2], 0), keccak.lane(old(g.A)[0][3], 0), keccak.lane(old(g.A)[1][3], 0), keccak.lane(old(g.A)[2][3], 0), keccak.lane(old(g.A)[3][3], 0), keccak.lane(old(g.A)[4][3], 0), keccak.lane(old(g.A)[0][4], 0), keccak.lane(old(g.A)[1][4], 0), keccak.lane(old(g.A)[2][4], 0), keccak.lane(old(g.A)[3][4], 0), keccak.lane(old(g.A)[4][4], 0))
+//@   let inb = keccak.lanebool(old(g.A)[0][0], 0) && keccak.lanebool(old(g.A)[0][1], 0) && keccak.lanebool(old(g.A)[0][2], 0) && keccak.lanebool(old(g.A)[0][3], 0) && keccak.lanebool(old(g.A)[0][4], 0) && keccak.lanebool(old(g.A)[1][0], 0) && keccak.lanebool(old(g.A)[1][1], 0) && keccak.lanebool(old(g.A)[1][2], 0) && keccak.lanebool(old(g.A)[1][3], 0) && keccak.lanebool(old(g.A)[1][4], 0) && keccak.lanebool(old(g.A)[2][0], 0) && keccak.lanebool(old(g.A)[2][1], 0) && keccak.lanebool(old(g.A)[2][2], 0) && keccak.lanebool(old(g.A)[2][3], 0) && keccak.lanebool(old(g.A)[2][4], 0) && keccak.lanebool(old(g.A)[3][0], 0) && keccak.lanebool(old(g.A)[3][1], 0) && keccak.lanebool(old(g.A)[3][2], 0) && keccak.lanebool(old(g.A)[3][3], 0) && keccak.lanebool(old(g.A)[3][4], 0) && keccak.lanebool(old(g.A)[4][0], 0) && keccak.lanebool(old(g.A)[4][1], 0) && keccak.lanebool(old(g.A)[4][2], 0) && keccak.lanebool(old(g.A)[4][3], 0) && keccak.lanebool(old(g.A)[4][4], 0) && keccak.lanebool(g.RC, 0)
+//@   ensures api.ok == (ok0 && inb)
+//@   ensures inb ==> (forall x :: 0 <= x && x < 5 ==> (forall y :: 0 <= y && y < 5 ==> keccak.lanebool(result[x][y], 0) &&
+//@              keccak.lane(result[x][y], 0) == keccak.round(st0, keccak.lane(g.RC, 0))[x + 5*y]))
+//@   reveal keccak.round keccak.st25 keccak.rotl keccak.rho
 
 //@ func (KeccakGadget) DefineGadget
 //@   property C04
